@@ -81,6 +81,14 @@ func Harness_C18_Render() {
 		}
 	}
 	verifSetFile("d/list.txt", list)
+	// a README.md from an earlier run (longer than anything this run writes) may already be there
+	if verifChoice("old_readme", 2) == 1 {
+		old := ""
+		for k := 0; k < 40; k++ {
+			old += "### old section\n\n"
+		}
+		verifSetFile("d/README.md", old)
+	}
 	verifSetArgs([]string{"build_sample_md", "d/list.txt"})
 	code := verifRunMain(main)
 
